@@ -81,6 +81,7 @@ var exposerRows = map[string]string{
 	"stale-detected":         "an early reference was handed out to a holder that already finished, and initialization produced a different version: creation fails",
 	"in-creation-holders-ok": "holders still in creation do not trigger the stale-version error",
 	"lookup-after-init":      "the early-reference lookup happens after initialization and does not allow creating a new early reference",
+	"stage-order":            "population runs exactly once, initialization exactly once after it and only if it succeeded; a component is handed back as created only after both",
 }
 
 func exposerTable(c *core.Ctx, l *lifecycleRoles) (rs rows, runs int, undecided string) {
@@ -260,6 +261,25 @@ func exposerTable(c *core.Ctx, l *lifecycleRoles) (rs rows, runs int, undecided 
 		ai, pi := idx(st.events, "ADD_FACTORY"), idx(st.events, "POPULATE")
 		if (ai >= 0) != exposed || (ai >= 0 && (pi < ai || !contains(st.events, "ADD_FACTORY(sameName=true)"))) || pi < 0 {
 			rs.fail("expose-iff-condition", w)
+		}
+		// population exactly once, then initialization exactly once (unless population failed)
+		rs.hit("stage-order")
+		nPop, nInit := 0, 0
+		for _, e := range st.events {
+			switch e {
+			case "POPULATE":
+				nPop++
+			case "INIT":
+				nInit++
+			}
+		}
+		ii0 := idx(st.events, "INIT")
+		wantInit := 1
+		if st.popErr {
+			wantInit = 0
+		}
+		if nPop != 1 || nInit != wantInit || (ii0 >= 0 && ii0 < pi) || (!isErr && (nPop != 1 || nInit != 1)) {
+			rs.fail("stage-order", w)
 		}
 		failed := st.popErr || st.init == 2 || (st.init == 1 && st.proxyErr) || (st.lookedUp && st.lookup == 3)
 		if failed {
